@@ -193,7 +193,6 @@ func (b *assignmentBuilder) structFieldAndStructGettersAndFields(lhs bmodel.Node
 
 		if util.IsStructType(lhs.ExprType()) &&
 			util.IsStructType(rhs.ExprType()) {
-			nested = true
 			nestStruct := gmodel.NestStruct{}
 			if util.IsPtr(lhs.ExprType()) {
 				nestStruct.InitExpr = fmt.Sprintf("%v = %v{}", lhs.AssignExpr(), b.imports.TypeName(lhs.ExprType()))
@@ -204,6 +203,9 @@ func (b *assignmentBuilder) structFieldAndStructGettersAndFields(lhs bmodel.Node
 			// The additional arguments stay reachable for ":map $n ..." on nested destination paths.
 			nestStruct.Contents, err = b.structToStruct(lhs, rhs, additionalArgs)
 			if err == nil && 0 < len(nestStruct.Contents) {
+				// A destination struct without any accessible member yields no contents; it is
+				// not "nested" then but reported as no match below instead of vanishing silently.
+				nested = true
 				a = nestStruct
 			}
 		}
